@@ -88,3 +88,12 @@ claim('C09', 'Lean 4 theorems on the JournalReader iteration/serialisation model
       "--file -o json: entry count, cursor order, per-entry field lines, cat text, windows exactly on and next to entry times; printed selections are compared with the model.",
       TB + "libsystemd (seek/next/enumerate) and journalctl are trusted; short/verbose renderings are not modelled.",
       "DESIGN.md §6 C09")
+
+claim('C18', 'Lean 4 theorems on a protocol model of temporary files whose order of operations is regenerated from the source; scenario correspondence and TMPDIR oracle on the binary with H3 sleeps and SIGINT',
+      "Machine-checked, with createUnderLock / dropBeforeSummary read from the source on every run: a normal run leaves no temporary file although main never joins the workers; "
+      "after SIGINT at any moment no file remains provided no worker creates its file after the handler ran; the unrestricted statement is false (late creation, a start-up "
+      "microsecond window) and the two defects repaired by this work (commits 1f118f4b, d9c77f45) are kept as counter-models that a regression would re-enable. Tie: the real "
+      "binary runs with sleeps that widen exactly those windows (after the final summary; between creating and listing) and with SIGINT at planned offsets over compressed "
+      "journal/evtx sources in a private TMPDIR; leftovers must equal the model's prediction and be zero. Promptness is measured: known finding F15.",
+      TB + "Runtime behaviour the model cannot exhibit: OS signal delivery, process exit, tempfile/ctrlc internals; which worker step coincides with the signal is arranged by sleeps.",
+      "DESIGN.md §6 C18")
